@@ -771,30 +771,26 @@ func mRenameKeys(a []MalType) res {
 	if !ok0 || !ok1 {
 		return fail
 	}
-	// as in Clojure: every key of m0 present in m1 is replaced by m1's value
-	out := map[string]MalType{}
-	for k, v := range m0.Val {
-		if nk, present := m1.Val[k]; present {
-			nks, ok := isKey(nk)
+	// as in Clojure: every key of m0 present in m1 is replaced by m1's value, all at once
+	final := map[string]string{}
+	for k := range m0.Val {
+		nk := k
+		if v, present := m1.Val[k]; present {
+			ks, ok := isKey(v)
 			if !ok {
 				return any_
 			}
-			if _, clash := m0.Val[nks]; clash && nks != k {
-				return any_ // collision with another existing key: result depends on order
-			}
-			for k2 := range m0.Val {
-				if k2 != k {
-					if nk2, p2 := m1.Val[k2]; p2 {
-						if s2, ok2 := isKey(nk2); ok2 && s2 == nks {
-							return any_ // two keys renamed to the same name
-						}
-					}
-				}
-			}
-			out[nks] = v
-		} else {
-			out[k] = v
+			nk = ks
 		}
+		final[k] = nk
+	}
+	out := map[string]MalType{}
+	for k, v := range m0.Val {
+		nk := final[k]
+		if _, clash := out[nk]; clash {
+			return any_ // two entries end up under one name: the winner is unspecified
+		}
+		out[nk] = v
 	}
 	return val(HashMap{Val: out})
 }
